@@ -22,8 +22,9 @@ EXTENDS HFInterp, Json
 CONSTANTS Codes, MaxDepth, Backends, EmitCases, EmitMod, EmitRes
 
 VARIABLES code, tri, backend, cshape, ctag, hist, phase,
-          b0        \* backend current when the object was created (history variable for replay)
-vars == <<code, tri, backend, cshape, ctag, hist, phase, b0>>
+          b0,       \* backend current when the object was created (history variable for replay)
+          a0        \* alpha0 of the object (code 4 only; 1 for the other codes)
+vars == <<code, tri, backend, cshape, ctag, hist, phase, b0, a0>>
 
 \* a fixed enumeration order of TripleGrid
 SortTriplesSeq == << <<R(8), R(10), R(13)>>, <<R(9), R(10), R(11)>>, <<R(13), R(10), R(8)>>,
@@ -38,6 +39,7 @@ AlphasOf(step, k, ti) == [i \in 1..k |-> AlphaGrid[((step * 5 + i * 3 + ti) % Le
 
 Init == /\ code \in Codes /\ tri \in Triples /\ backend \in Backends
         /\ cshape = 1 /\ ctag = backend /\ hist = <<>> /\ phase = "new" /\ b0 = backend
+        /\ a0 \in (IF code = 4 THEN Alpha0s ELSE {ROne})
 
 Call(k) ==
   /\ Len(hist) < MaxDepth
@@ -45,7 +47,7 @@ Call(k) ==
   \* _precompute_alphasets: refresh only when the shape differs (built with the CURRENT backend)
   /\ IF k = cshape THEN UNCHANGED <<cshape, ctag>> ELSE cshape' = k /\ ctag' = backend
   /\ phase' = "called"
-  /\ UNCHANGED <<code, tri, backend, b0>>
+  /\ UNCHANGED <<code, tri, backend, b0, a0>>
 
 Switch(b) ==
   /\ Len(hist) < MaxDepth /\ b # backend
@@ -53,7 +55,7 @@ Switch(b) ==
   /\ backend' = b
   /\ ctag' = b            \* _precompute subscribed to tensorlib_changed rebuilds with the stored shape
   /\ phase' = "switched"
-  /\ UNCHANGED <<code, tri, cshape, b0>>
+  /\ UNCHANGED <<code, tri, cshape, b0, a0>>
 
 Next == (\E k \in 1..3 : Call(k)) \/ (\E b \in Backends : Switch(b))
 Spec == Init /\ [][Next]_vars
@@ -61,42 +63,42 @@ Spec == Init /\ [][Next]_vars
 -----------------------------------------------------------------------------
 T == SortTriplesSeq[tri]
 \* value the DEFINITION assigns; rational where possible, a symbolic leaf otherwise
-DefValue(c, t, a) ==
+\* exponential pieces are rational only for integer exponents; otherwise a symbolic "pow" leaf
+ExpPiece(reg, t, a) ==
+  LET base == IF reg = "up" THEN RDiv(t[3], t[2]) ELSE RDiv(t[1], t[2]) IN
+  IF RIsInt(a) THEN [kind |-> "rat", v |-> RPow(base, Abs(a[1]))]
+  ELSE [kind |-> "pow", base |-> base, exp |-> RAbs(a)]
+DefValue(c, t, a, z) ==
   IF c \in RationalCodes
   THEN [kind |-> "rat", v |-> Piece(c, DefRegime(c, Cmp3(a, ROne)), t[1], t[2], t[3], a)]
   ELSE \* at the seams |alpha| = alpha0 of code 4 the core polynomial and the exponential coincide
        \* (A4Inverse), so the exponential form is used there
-       LET reg0 == DefRegime(c, Cmp3(a, ROne))
-           reg  == IF c = 4 /\ RAbs(a) = ROne THEN (IF a[1] > 0 THEN "up" ELSE "dn") ELSE reg0 IN
-       IF RIsInt(a) /\ (c = 1 \/ reg # "core" \/ a[1] = 0)
-       THEN [kind |-> "rat", v |-> I1(t[1], t[2], t[3], a)]
-       ELSE IF c = 1 \/ reg # "core"
-       THEN [kind |-> "pow", base |-> IF reg = "up" THEN RDiv(t[3], t[2]) ELSE RDiv(t[1], t[2]), exp |-> RAbs(a)]
-       ELSE [kind |-> "poly4", up |-> RDiv(t[3], t[2]), dn |-> RDiv(t[1], t[2]), a |-> a, a0 |-> ROne]
-ImplValue(c, t, a) ==
+       LET reg0 == DefRegime(c, Cmp3(a, z))
+           reg  == IF c = 4 /\ RAbs(a) = z THEN (IF a[1] > 0 THEN "up" ELSE "dn") ELSE reg0 IN
+       IF c = 1 \/ reg # "core" THEN ExpPiece(reg, t, a)
+       ELSE IF a = RZero THEN [kind |-> "rat", v |-> ROne]
+       ELSE [kind |-> "poly4", up |-> RDiv(t[3], t[2]), dn |-> RDiv(t[1], t[2]), a |-> a, a0 |-> z]
+ImplValue(c, t, a, z) ==
   IF c \in RationalCodes
   THEN [kind |-> "rat", v |-> Piece(c, ImplRegime(c, Cmp3(a, ROne)), t[1], t[2], t[3], a)]
-  ELSE LET reg == ImplRegime(c, Cmp3(a, ROne)) IN
-       IF RIsInt(a) /\ (c = 1 \/ reg # "core" \/ a[1] = 0)
-       THEN [kind |-> "rat", v |-> IF reg = "core" THEN ROne
-                                  ELSE IF reg = "up" THEN RPow(RDiv(t[3], t[2]), Abs(a[1])) ELSE RPow(RDiv(t[1], t[2]), Abs(a[1]))]
-       ELSE IF c = 1 \/ reg # "core"
-       THEN [kind |-> "pow", base |-> IF reg = "up" THEN RDiv(t[3], t[2]) ELSE RDiv(t[1], t[2]), exp |-> RAbs(a)]
-       ELSE [kind |-> "poly4", up |-> RDiv(t[3], t[2]), dn |-> RDiv(t[1], t[2]), a |-> a, a0 |-> ROne]
+  ELSE LET reg == ImplRegime(c, Cmp3(a, z)) IN
+       IF c = 1 \/ reg # "core" THEN ExpPiece(reg, t, a)
+       ELSE IF a = RZero THEN [kind |-> "rat", v |-> ROne]
+       ELSE [kind |-> "poly4", up |-> RDiv(t[3], t[2]), dn |-> RDiv(t[1], t[2]), a |-> a, a0 |-> z]
 
 LastCall == hist[Len(hist)]
 CachesMatchAtUse == phase = "called" => cshape = LastCall.k /\ ctag = backend
 ImplEqDef == phase = "called" =>
-   \A i \in 1..LastCall.k : ImplValue(code, T, LastCall.alphas[i]) = DefValue(code, T, LastCall.alphas[i])
+   \A i \in 1..LastCall.k : ImplValue(code, T, LastCall.alphas[i], a0) = DefValue(code, T, LastCall.alphas[i], a0)
 \* at a seam the closed end may sit on either side: code 4 takes "up" at alpha = alpha0 where the
 \* definition's core polynomial also applies; they agree by A4Inverse, which the harness uses as given
 
-FullCase == [code |-> code, triple |-> T, backend0 |-> b0, hist |-> hist,
-             expected |-> [i \in 1..LastCall.k |-> DefValue(code, T, LastCall.alphas[i])]]
+FullCase == [code |-> code, triple |-> T, backend0 |-> b0, hist |-> hist, a0 |-> a0,
+             expected |-> [i \in 1..LastCall.k |-> DefValue(code, T, LastCall.alphas[i], a0)]]
 HHash == LET w(e) == IF e.op = "call" THEN e.k ELSE 4 + Len(e.backend)
              RECURSIVE F(_)
              F(i) == IF i > Len(hist) THEN 0 ELSE i * i * w(hist[i]) + F(i + 1)
-         IN tri * 31 + code * 17 + Len(b0) * 3 + F(1)
+         IN tri * 31 + code * 17 + Len(b0) * 3 + a0[1] * 5 + a0[2] * 11 + F(1)
 Emit == (EmitCases /\ phase = "called" /\ HHash % EmitMod = EmitRes) => PrintT(ToJson(FullCase))
-ASSUME EmitCases => PrintT(ToJson([ainv |-> AInv(ROne), a0 |-> ROne]))
+ASSUME EmitCases => \A z \in Alpha0s : PrintT(ToJson([ainv |-> AInv(z), a0 |-> z]))
 =============================================================================
